@@ -74,7 +74,7 @@ def p_c14(facts, rep, tier):
         "(io::Error, anyhow::Error, BucketExhaustion) is dropped or thrown away by a discarding consumer; R2: every CompleteIo has "
         "its `.result` checked (or is handed on whole) on every success path; R3: every spawned task's channel has a join_task on the "
         "paired receiver; R4: in the five mutating entry points the failure edge of every fallible repo call at or after an effect "
-        "passes a poisoning site (or the callee is proved self-poisoning), and Store::commit refuses when poisoned before starting a sync; R5: no wait/join is reachable without its request/spawn; R6: the I/O back-end builds an Ok completion only on the arm where the syscall result was classified as success. "
+        "passes a poisoning site (or the callee is proved self-poisoning), and Store::commit refuses when poisoned before starting a sync; R5: no wait/join is reachable without its request/spawn; R6: the I/O back-end builds an Ok completion only on the arm where the syscall result was classified as success, and the classifier says success only under `res == <expected length>`. "
         "On-disk atomicity after a failure and liveness are not decided."
     )
     st = strands.Strands(facts)
@@ -82,8 +82,8 @@ def p_c14(facts, rep, tier):
     n2 = errflow.r2_completions_checked(facts, rep)
     n3, nj = errflow.r3_tasks_joined(facts, rep, st)
     n4 = errflow.r4_error_exits_poison(facts, rep)
-    n6 = errflow.r6_completion_source(facts, rep)
-    rep.floor("R6 obligations", n6, 3)
+    n6 = errflow.r6_completion_source(facts, rep) + errflow.r6b_classifier(facts, rep)
+    rep.floor("R6 obligations", n6, 5)
     n_fn, n_eff, n_guard = guardfx.run(facts, rep, "C14")
     import syncorder
 
